@@ -1,0 +1,14 @@
+//go:build verif
+
+// Contracts for the v1 API, read by /verif/govc.
+// This file contains comments only; it is compiled only with -tags verif.
+
+package v1
+
+// C14: the preview flag of the request reaches the engine (see v2)
+//@ def qparam(r, name) = lib("(net/url.Values).Get", lib("(*net/url.URL).Query", r.URL), name)
+//@ func v1.getCommandParameters
+//@   requires r != nil
+//@   ensures ret.DryRun <==> (lib("strings.ToUpper", qparam(r, "preview")) == "YES" || lib("strings.ToUpper", qparam(r, "preview")) == "TRUE" || qparam(r, "preview") == "1")
+//@   ensures ret.IdempotencyKey == lib("(net/http.Header).Get", r.Header, "Idempotency-Key")
+//@   property C14 C07
